@@ -455,6 +455,14 @@ impl History {
         if self.progress == before {
             // the ready queue is not empty but a whole turn handed out nothing: the router spins
             self.corner("router-spinning-without-output");
+            // the production loop itself has to come back from this state too (its consumes are bounded): one real
+            // turn, which by definition of the state hands out nothing; if it never returns the step supervisor
+            // (`crate::watch`) sees a step that only consumes CPU time
+            if self.s4.pending_events().next().is_none() && !self.done() {
+                let out = self.s4.step(Step::Turn);
+                *self.ops_count.entry("router-turn-real-while-spinning").or_default() += 1;
+                self.sync(out, Step::Turn);
+            }
         }
         self.progress != before
     }
@@ -1702,6 +1710,52 @@ impl History {
                 break;
             }
         }
+    }
+
+    /// Directed scenario: two members of a shared group at QoS 1 and a backlog larger than both windows; one member
+    /// acknowledges everything, the other nothing. Whenever the turn is the silent member's, the other one has room
+    /// and unread messages but may not take them: the router polls it without output until the silent member moves.
+    pub fn shared_turn_holder_stuck(&mut self) {
+        crate::watch::set_history(self.replay_json());
+        let n = self.actors.len();
+        for a in 0..n.min(3) {
+            self.actors[a].persistent = false;
+            self.connect(a, None);
+        }
+        self.step(Step::Turn);
+        let path = "$share/g-a/a".to_owned();
+        self.subscribe(0, &[(path.clone(), 1)], true);
+        self.subscribe(1, &[(path, 1)], true);
+        self.step(Step::Turn);
+        let publisher = if n > 2 { 2 } else { 1 };
+        let total = 210 + self.rng.below(60);
+        for i in 0..total {
+            self.publish(publisher, "a", (i % 2) as u8, false, false, None, true);
+            if i % 25 == 24 {
+                self.step(Step::Turn);
+            }
+        }
+        for _ in 0..6 {
+            self.step(Step::Turn);
+        }
+        // member 1 acknowledges all it got, member 0 nothing: for a while the router has output for nobody
+        let silent = self.rng.below(2) as usize;
+        let busy = 1 - silent;
+        for _ in 0..4 {
+            if self.done() {
+                return;
+            }
+            self.drain(busy);
+            self.flush_acks(busy, usize::MAX);
+            self.send_ready(busy);
+            self.drain(publisher);
+            self.flush_acks(publisher, usize::MAX);
+            self.drain(silent);
+            for _ in 0..3 {
+                self.step(Step::Turn);
+            }
+        }
+        self.corner("shared-turn-holder-silent");
     }
 
     /// Run a whole random history
